@@ -200,10 +200,9 @@ class TaskingEngine(metaclass=ABCMeta):
         Args:
             missed_observations (``list``): :class:`.MissedObservation` to save
         """
-        for miss in missed_observations:
-            if miss:
-                self._missed_observations.extend(missed_observations)
-                self._saved_missed_observations.extend(missed_observations)
+        valid_misses = [miss for miss in missed_observations if miss]
+        self._missed_observations.extend(valid_misses)
+        self._saved_missed_observations.extend(valid_misses)
 
     def updateFromAsyncTaskExecution(self, sensor_info_list: list) -> None:
         """Save Changes to sensor as a result of tasking.
@@ -211,7 +210,6 @@ class TaskingEngine(metaclass=ABCMeta):
         Args:
             sensor_info_list (list): list of dict
         """
-        self.sensor_changes = {}
         for sensor_info in sensor_info_list:
             self.sensor_changes[sensor_info["sensor_id"]] = {
                 "boresight": sensor_info["boresight"],
